@@ -31,14 +31,16 @@ EXTENDS Naturals, Sequences, FiniteSets, SequencesExt, TLC, Json
 CONSTANTS TwoFields, Pairwise
 Templates == {"direct", "vec", "opt", "arr", "tup", "box", "result", "phantom", "assoc", "qassoc", "vecassoc",
               "selfbox", "selfvec", "selfkw", "selfmix", "selfassoc", "skipT", "skipNoInfoG", "skipNoInfo", "compactc", "concrete",
-              "compactp", "compactassoc", "assocnamed", "vecassocnamed", "selfqassoc"}
+              "compactp", "compactassoc", "assocnamed", "vecassocnamed", "selfqassoc", "selfpathq"}
 Encoding == {"direct", "vec", "opt", "arr", "tup", "box", "result", "selfmix", "compactp"}        \* p itself is part of the encoding
 NeedsCfg == {"assoc", "qassoc", "vecassoc", "selfassoc", "selfqassoc", "compactassoc"}
 \* p::G and Vec<p::G> where the associated type is NAMED LIKE THE DERIVING TYPE G (its own trait): not a self reference
 NamedLikeSelf == {"assocnamed", "vecassocnamed"}
-SelfRef == {"selfbox", "selfvec", "selfkw", "selfmix", "selfassoc", "selfqassoc"}
+\* selfpathq: the self reference sits under a MULTI-SEGMENT path that does not start with a parameter
+\* (Vec<core::option::Option<Self<..>>>): nothing inside it may be bound on its own
+SelfRef == {"selfbox", "selfvec", "selfkw", "selfmix", "selfassoc", "selfqassoc", "selfpathq"}
 Skipped == {"skipT", "skipNoInfoG", "skipNoInfo"}
-MentionsP == Templates \ {"selfbox", "selfvec", "selfkw", "skipNoInfo", "compactc", "concrete"}
+MentionsP == Templates \ {"selfbox", "selfvec", "selfkw", "selfpathq", "skipNoInfo", "compactc", "concrete"}
 \* "splitattr": the decisive codec attribute of a member is the SECOND of two #[codec(..)] attributes on the item
 \* (#[codec(encoded_as = ..)] #[codec(skip)] on a field, #[codec(index = ..)] #[codec(skip)] on a variant): spelling only,
 \* the where-clause must not depend on it
@@ -81,7 +83,7 @@ VecAssocBound(p) == "custom" \notin d.mods /\ \E i \in 1..Len(d.fields) : d.fiel
 (* what the body needs, member by member, and whether the where-clause provides it *)
 MemberOK(f) ==
   CASE f.t \in Skipped -> TRUE                                              \* not described at all
-    [] f.t \in {"compactc", "concrete", "phantom", "selfbox", "selfvec", "selfkw"} -> TRUE
+    [] f.t \in {"compactc", "concrete", "phantom", "selfbox", "selfvec", "selfkw", "selfpathq"} -> TRUE
     [] f.t \in Encoding \ {"selfmix"} -> f.p \notin SkipSet                 \* p: TypeInfo from the parameter bound
     [] f.t = "selfmix" -> f.p \notin SkipSet
     [] f.t = "compactp" -> f.p \notin SkipSet                               \* p: TypeInfo (parameter bound) and p: HasCompact (member bound)
